@@ -642,8 +642,8 @@ def run_point(case):
     except (RuntimeError, FloatingPointError):
         tags.append("ipoint:undefined")
     # diagnosis only: the evaluators themselves on fixed-width integer states.  With the lambda back-end numpy integer scalars
-    # reach the lambdified expressions and wrap around (999**3*k as int32, 3e6**3 as int64) - a defect of the EVALUATORS
-    # (proposed_fixes/C13-int-state-overflow.diff).  The sensitivity entry points then return wrong values for the containers
+    # reached the lambdified expressions and wrapped around (999**3*k as int32, 3e6**3 as int64) - a defect of the EVALUATORS
+    # (repaired in /repo by ea55e76; corpus/C13/int-state-wraparound.json).  The sensitivity entry points then return wrong values for the containers
     # that carry such scalars; THOSE are the violations (judged below like every other form), under signatures that start
     # with `int-state-wraparound:` so that this root cause is told apart from a fault in the assembly of J.S+G.
     wrapped = {}
